@@ -88,6 +88,8 @@ HARNESS = {
     # name: (source, compiler, flags, libs, config kwargs)
     "h_exact": dict(src="h_exact.cpp", cxx="clang++", flags=["-O1", "-g"] + SAN, libs=["-lrapidcheck", "-ltbb", "-lboost_timer"]),
     "h_approx": dict(src="h_approx.cpp", cxx="clang++", flags=["-O1", "-g"] + SAN, libs=["-lrapidcheck", "-ltbb", "-lboost_timer"]),
+    "fz_dimacs": dict(src="fz_dimacs.cpp", cxx="clang++", flags=["-O1", "-g", "-fsanitize=fuzzer,address,undefined", "-fno-sanitize-recover=undefined"], libs=["-ltbb"]),
+    "h_dimacs": dict(src="h_dimacs.cpp", cxx="clang++", flags=["-O1", "-g"] + SAN, libs=["-lrapidcheck", "-ltbb"]),
     "h_alg": dict(src="h_alg.cpp", cxx="clang++", flags=["-O1", "-g"] + SAN, libs=["-lrapidcheck"]),
     "h_comp": dict(src="h_comp.cpp", cxx="clang++", flags=["-O1", "-g"] + SAN, libs=["-lrapidcheck", "-ltbb", "-lboost_timer"]),
 }
@@ -211,6 +213,17 @@ prop("C15", harness="h_approx",
           "spanner weight == input weight per retained edge; retained and dropped partition E; every dropped (u,v) has a BFS path of <= 2k-1 "
           "retained edges none heavier than it; BFS girth of the retained subgraph > 2k. Non-trivial = k>=2, >=1 dropped edge, retained subgraph has a cycle.",
      assumptions=["exact weight domain", "hook PARMCB_VERIF accessors are read-only"])
+prop("C10", harness="h_dimacs",
+     quick=dict(shards=16, cases=6000, fuzz=dict(harness="fz_dimacs", jobs=4, runs=150000, max_len=512, seed_corpus="corpus/dimacs")),
+     thorough=dict(shards=16, cases=100000, fuzz=dict(harness="fz_dimacs", jobs=16, time=180, max_len=1024, seed_corpus="corpus/dimacs")),
+     rule="Structure-aware DIMACS text generator (comments 'c'/'#' with arbitrary printable payload up to 900 bytes, problem word palette, "
+          "arbitrary declared m, 'e'/'a' edge lines with space/tab separators, loops and repeated pairs, optional weight tokens: integer, decimal, "
+          "negative, zero, exponent; optional edge naming vertex 0 or n+1; trailing newline present/absent) fed through fmemopen; oracle = an "
+          "independent reference parser of the same bytes: vertex count, edges in file order with the same endpoints, weight == strtod(token) or 1 "
+          "exactly, exception iff an undeclared vertex is named, has_loops / has_non_positive_weights / has_multiple_edges == recomputation. "
+          "Non-trivial = >=1 edge line and (no trailing newline or an omitted weight or a comment between edge lines).",
+     assumptions=["lines < 1000 bytes, no blank lines, no CR/NUL bytes, exactly one problem line before the first edge line (the stated domain)",
+                  "graph type adjacency_list<vecS,vecS,undirectedS,no_property,edge_weight double> as in the demos"])
 prop("C17", harness="h_alg",
      quick=dict(shards=16, cases=5000),
      thorough=dict(shards=16, cases=150000),
@@ -401,6 +414,53 @@ def minimise_crash_case(binp, pid, text, env, workdir, wanted_class, launcher=No
     return "\n".join(lines) + "\n"
 
 
+def run_fuzz_job(binp, pid, seed, fzconf, env, workdir, idx):
+    """One libFuzzer process with a fresh corpus.  Returns a result dict shaped like run_shard's plus 'cases'."""
+    corp = os.path.join(workdir, "corpus-%d" % idx)
+    outd = os.path.join(workdir, "fzout-%d" % idx)
+    art = os.path.join(workdir, "art-%d-" % idx)
+    os.makedirs(corp, exist_ok=True)
+    seed_corpus = fzconf.get("seed_corpus")
+    if seed_corpus and idx % 2 == 1:   # odd jobs start from the committed seed corpus, even jobs from an empty one
+        for f in glob.glob(os.path.join(VERIF, seed_corpus, "*")):
+            shutil.copy(f, corp)
+    statp = os.path.join(workdir, "fzstats-%d.json" % idx)
+    cmd = [binp, "-seed=%d" % seed, "-max_len=%d" % fzconf.get("max_len", 512), "-artifact_prefix=" + art,
+           "-print_final_stats=0", "-verbosity=0"]
+    if "runs" in fzconf:
+        cmd.append("-runs=%d" % fzconf["runs"])
+    if "time" in fzconf:
+        cmd.append("-max_total_time=%d" % fzconf["time"])
+    cmd.append(corp)
+    e = dict(ASAN_ENV)
+    e.update(env or {})
+    e["VERIF_FUZZ_STATS"] = statp
+    e["VERIF_FUZZ_OUT"] = outd
+    rc, out, to = run_proc(cmd, e, fzconf.get("timeout", 3600))
+    st = None
+    if os.path.exists(statp):
+        try:
+            st = json.load(open(statp))
+        except Exception:
+            st = None
+    cases = []
+    for f in sorted(glob.glob(os.path.join(outd, "*.case"))):
+        txt = open(f).read()
+        m = re.search(r"^# key (\S+)", txt, re.M)
+        body = "\n".join(l for l in txt.splitlines() if not l.startswith("#")) + "\n"
+        cases.append((body, m.group(1) if m else "fuzz-failure", "libFuzzer semantic oracle failure", False))
+    if not cases:
+        # sanitizer crash inside the library: decode the artifact into a case through the target's dump mode
+        for a in sorted(glob.glob(art + "crash-*")) + sorted(glob.glob(art + "leak-*")):
+            dumpp = os.path.join(workdir, "dump-%d.case" % idx)
+            e2 = dict(e)
+            e2["VERIF_FUZZ_DUMP"] = dumpp
+            rc2, out2, _ = run_proc([binp, a], e2, 120)
+            if os.path.exists(dumpp):
+                cases.append((open(dumpp).read(), crash_class(out2 or out), crash_summary(out2 or out), True))
+    return dict(idx=1000 + idx, rc=(0 if not cases else 1), out=out, timed_out=False, stats=st, seed=seed, cases=cases)
+
+
 def merge_stats(results):
     ev = 0
     hashes = set()
@@ -502,13 +562,24 @@ def run_rc_property(pid, tier, conf=None):
         futs = [ex.submit(run_shard, binp, pid, seed * 1000 + i, cases, env, excludes, workdir, i, timeout,
                           conf.get("max_size", 100), launcher) for i in range(shards)]
         results = [f.result() for f in futs]
+    fz = conf.get("fuzz")
+    fuzz_execs = 0
+    if fz:
+        fbin = build_harness(fz["harness"])
+        with ThreadPoolExecutor(max_workers=fz.get("jobs", 4)) as ex:
+            ffuts = [ex.submit(run_fuzz_job, fbin, pid, seed * 100 + j + 1, fz, env, workdir, j) for j in range(fz.get("jobs", 4))]
+            fres = [f.result() for f in ffuts]
+        fuzz_execs = sum((r["stats"] or {}).get("evaluations", 0) for r in fres)
+        results += fres
     ev, hashes, classes, excluded, samples = merge_stats(results)
     inconclusive = 0
     os.makedirs(NEWDIR, exist_ok=True)
     for r in results:
         st = r["stats"] or {}
         cand = []   # (casetext, key)
-        if st.get("failures"):
+        if r.get("cases") is not None:
+            cand = list(r["cases"])
+        elif st.get("failures"):
             for f in st["failures"]:
                 cand.append((f["case"], f["key"], f["message"], False))
         elif r["timed_out"]:
@@ -561,7 +632,7 @@ def run_rc_property(pid, tier, conf=None):
     coverage = dict(evaluations=ev, distinct_nontrivial=len(hashes), rule=P["rule"], samples=samples,
                     classes=classes, shards=shards, cases_per_shard=cases, committed_replays=n_replayed,
                     excluded_known_findings=excluded, inconclusive_shards=inconclusive, notes=notes,
-                    harness=P["harness"], violations_found=[dict(key=k, message=m, replay=p) for k, m, p in violations])
+                    libfuzzer_executions=fuzz_execs, harness=P["harness"], violations_found=[dict(key=k, message=m, replay=p) for k, m, p in violations])
     write_evidence(pid, tier, seed, "exploration", coverage, P.get("assumptions", []), wall, len(violations))
     shutil.rmtree(workdir, ignore_errors=True)
     for k, m, p in violations:
@@ -589,7 +660,13 @@ def replay_cmd(pid, path):
 def setup():
     os.makedirs(BUILD, exist_ok=True)
     os.makedirs(EVID, exist_ok=True)
-    names = sorted(set(p["harness"] for p in PROPS.values() if p.get("harness")))
+    names = set(p["harness"] for p in PROPS.values() if p.get("harness"))
+    for p in PROPS.values():
+        for tier in ("quick", "thorough"):
+            fzc = (p.get(tier) or {}).get("fuzz")
+            if fzc:
+                names.add(fzc["harness"])
+    names = sorted(names)
     errs = []
     with ThreadPoolExecutor(max_workers=min(8, NCPU)) as ex:
         futs = {n: ex.submit(build_harness, n) for n in names}
